@@ -314,6 +314,7 @@ INVALID = {
     "unknown-key-interface-object": (["iface"], unknown_key_at("interface-object")),
     "unknown-template-data-key": (ALL_LEVELS, td_at({"no-such-option": True})),
     "template-data-wrong-type": (ALL_LEVELS, td_at({"unroll-variadic": "yes please"})),
+    "boilerplate-file-unreadable": (ALL_LEVELS, lambda f, c, l: (td_at({"boilerplate-file": "no/such/header.txt"})(f, c, l), lvl(c, l).update({"formatter": "noop"}))),
     "invalid-include-regex": (["root", "pkg"], set_at("include-interface-regex", "([unclosed")),
     "invalid-exclude-regex": (["root", "pkg"], lambda f, c, l: lvl(c, l).update({"include-interface-regex": ".*", "exclude-interface-regex": "(?P<bad"})),
     "invalid-exclude-subpkg-regex": (["root", "pkg"], lambda f, c, l: lvl(c, l).update({"recursive": True, "exclude-subpkg-regex": ["ok", "*bad"]})),
